@@ -1,6 +1,9 @@
 package main
 
-import "fmt"
+import (
+	"fmt"
+	"strings"
+)
 
 // The property monitor's reference: a plain Go logical log per (shard,
 // replica), written independently of the Coq spec (Model/LogStoreSpec.v) that
@@ -34,7 +37,18 @@ func (n *rnode) ssidx() uint64 {
 	return n.ss.Index
 }
 
+// the bootstrap record of a replica: written by SaveBootstrapInfo and by
+// ImportSnapshot (Join, the snapshot's state machine type, no addresses),
+// removed by RemoveNodeData
+type bootrec struct {
+	join, typ uint64
+	tag       int64 // -1: no addresses
+}
+
+func (b bootrec) String() string { return fmt.Sprintf("%d %d %d", b.join, b.typ, b.tag) }
+
 type ref struct {
+	boot   [numNodes]*bootrec
 	nodes  [numNodes]rnode
 	nonCmd uint64
 }
@@ -187,10 +201,14 @@ func (r *ref) apply(o op) {
 			n.ents = append([]ent{}, n.ents[o.A-n.marker:]...)
 			n.marker = o.A
 		}
+	case "BOOT":
+		r.boot[o.N] = &bootrec{join: o.A, typ: o.B, tag: int64(o.C)}
 	case "REMNODE":
+		r.boot[o.N] = nil
 		r.nodes[o.N] = rnode{}
 	case "IMPORT":
 		ss := o.Ss
+		r.boot[o.N] = &bootrec{join: 1, typ: 1, tag: -1}
 		r.nodes[o.N] = rnode{lowW: r.nodes[o.N].lowW, marker: ss.Index, mterm: ss.Term, st: &hstate{Term: ss.Term, Commit: ss.Index}, ss: &ss}
 	}
 }
@@ -198,8 +216,22 @@ func (r *ref) apply(o op) {
 // query answers
 
 func (r *ref) query(o op) string {
+	if o.Kind == "LNI" {
+		var l []string
+		for i, b := range r.boot {
+			if b != nil {
+				l = append(l, fmt.Sprint(i))
+			}
+		}
+		return "[" + strings.Join(l, " ") + "]"
+	}
 	n := &r.nodes[o.N]
 	switch o.Kind {
+	case "GB":
+		if r.boot[o.N] == nil {
+			return "none"
+		}
+		return r.boot[o.N].String()
 	case "Q":
 		var out []ent
 		size := uint64(0)
